@@ -1327,6 +1327,67 @@ func readRecordSet(ctx context.Context, reader RecordReader, fileSize int64) (Re
 	return recordSet, err
 }
 
+// jsonLineBreakDetector finds the line break of a JSON or JSON Lines text: the first CR LF, LF or CR
+// outside of strings in the bytes that are scanned or read through it.
+type jsonLineBreakDetector struct {
+	reader io.Reader
+
+	detected  text.LineBreak
+	inString  bool
+	escaped   bool
+	pendingCR bool
+}
+
+func (d *jsonLineBreakDetector) Read(p []byte) (int, error) {
+	n, err := d.reader.Read(p)
+	d.scan(p[:n])
+	return n, err
+}
+
+func (d *jsonLineBreakDetector) scan(b []byte) {
+	if d.detected != "" {
+		return
+	}
+
+	for _, c := range b {
+		if d.pendingCR {
+			if c == '\n' {
+				d.detected = text.CRLF
+			} else {
+				d.detected = text.CR
+			}
+			return
+		}
+
+		switch {
+		case d.inString:
+			switch {
+			case d.escaped:
+				d.escaped = false
+			case c == '\\':
+				d.escaped = true
+			case c == '"':
+				d.inString = false
+			}
+		case c == '"':
+			d.inString = true
+		case c == '\n':
+			d.detected = text.LF
+			return
+		case c == '\r':
+			d.pendingCR = true
+		}
+	}
+}
+
+// LineBreak returns the detected line break, or an empty string if the text has no line break.
+func (d *jsonLineBreakDetector) LineBreak() text.LineBreak {
+	if d.detected == "" && d.pendingCR {
+		return text.CR
+	}
+	return d.detected
+}
+
 func loadViewFromJsonFile(fp *file.Reader, fileInfo *FileInfo, expr parser.QueryExpression) (*View, error) {
 	jsonText, err := io.ReadAll(fp)
 	if err != nil {
@@ -1336,6 +1397,12 @@ func loadViewFromJsonFile(fp *file.Reader, fileInfo *FileInfo, expr parser.Query
 	headerLabels, rows, escapeType, err := json.LoadTable(fileInfo.JsonQuery, string(jsonText))
 	if err != nil {
 		return nil, NewLoadJsonError(expr, err.Error())
+	}
+
+	lineBreakDetector := &jsonLineBreakDetector{}
+	lineBreakDetector.scan(jsonText)
+	if lb := lineBreakDetector.LineBreak(); lb != "" {
+		fileInfo.LineBreak = lb
 	}
 
 	records := make(RecordSet, len(rows))
@@ -1371,7 +1438,8 @@ func loadViewFromJsonLinesFile(ctx context.Context, flags *option.Flags, fp *fil
 	var recvErr error
 	var readBytes int64 = 0
 
-	reader := jsonl.NewReader(fp)
+	lineBreakDetector := &jsonLineBreakDetector{reader: fp}
+	reader := jsonl.NewReader(lineBreakDetector)
 	reader.SetUseInteger(false)
 
 	wg := sync.WaitGroup{}
@@ -1521,6 +1589,9 @@ func loadViewFromJsonLinesFile(ctx context.Context, flags *option.Flags, fp *fil
 		return nil, err
 	}
 
+	if lb := lineBreakDetector.LineBreak(); lb != "" {
+		fileInfo.LineBreak = lb
+	}
 	fileInfo.Encoding = text.UTF8
 	fileInfo.JsonEscape = escapeType
 
